@@ -1130,6 +1130,81 @@ pub fn campaign(run: &mut Run, focus: Focus) {
             }
         }
     }
+    // (C2) unoptimised build (profile dev0: opt-level 0 for the library, overflow checks and debug
+    // assertions on): stress shapes, chunk-boundary truncations and a fixed sample of hostile tapes
+    if thorough && focus == Focus::C04 {
+        let exe = format!("{}/dev0/vcheck", target_dir());
+        if std::path::Path::new(&exe).exists() {
+            let p0 = Pool::with_exe(lanes, Some(exe));
+            p0.set_timeout(300_000);
+            let mut n0 = 0u64;
+            let res = par_chunks(
+                lanes.min(8),
+                shapes.len() as u64,
+                || Vec::<(usize, Verdict)>::new(),
+                |acc, i| {
+                    let (_, b) = &shapes[i as usize];
+                    acc.push((i as usize, p0.run(i as usize % lanes, b, flags, i)));
+                },
+            );
+            for lane_res in res {
+                for (i, v) in lane_res {
+                    let (name, b) = &shapes[i];
+                    let ops = vec![format!("shape:{}", name), "profile:dev0".to_string()];
+                    let r = judge(focus, b, &v, &ops, false).map(|mut o| {
+                        o.hash ^= 0xD0;
+                        o.labels.push("profile-dev0".into());
+                        o
+                    });
+                    n0 += 1;
+                    run.direct(|| json!({"shape": name, "profile": "dev0", "hex": if b.len() < 4000 { hex(b) } else { String::new() }}), r);
+                }
+            }
+            let sample = 20_000u64;
+            let res = par_chunks(
+                lanes,
+                sample,
+                || (Stats::default(), Vec::<Violation>::new()),
+                |acc, i| {
+                    let mut r = Rng(lane_seed(seed, "dev0-sample", i));
+                    let tape: Vec<u32> = (0..500).map(|_| r.next() as u32).collect();
+                    let b = build_hostile(&tape);
+                    let v = p0.run((i % lanes as u64) as usize, &b.bytes, flags, i);
+                    let mut ops = b.ops.clone();
+                    ops.push("profile:dev0".into());
+                    match judge(focus, &b.bytes, &v, &ops, b.wellformed) {
+                        Ok(mut o) => {
+                            o.hash ^= 0xD0;
+                            o.labels.push("profile-dev0".into());
+                            acc.0.record(&o)
+                        }
+                        Err(f) => {
+                            acc.0.evaluations += 1;
+                            if acc.1.len() < 2 {
+                                acc.1.push(Violation { case: json!({"hex": hex(&b.bytes), "ops": ops, "profile": "dev0"}), failure: f });
+                            }
+                        }
+                    }
+                },
+            );
+            for (st, vs) in res {
+                run.stats.merge(st);
+                for v in vs {
+                    if !run.is_known(&v.failure.signature) && !run.violations.iter().any(|x| x.failure.signature == v.failure.signature) {
+                        run.violations.push(v);
+                    }
+                }
+            }
+            run.extra.insert("dev0_profile_inputs".into(), json!(n0 + sample));
+        } else {
+            run.extra.insert("dev0_profile_inputs".into(), json!("skipped: dev0 build not present"));
+        }
+    }
+    // (D) coverage-guided fuzzing (thorough tier of C04/C05 only)
+    if thorough && focus != Focus::C12 {
+        pool.set_timeout(60_000);
+        fuzz_stage(run, focus, &pool);
+    }
     let timeouts = run.stats.counters.get("timeouts").copied().unwrap_or(0);
     if timeouts > 0 {
         run.inconclusive = Some(format!("{} case(s) hit the per-case watchdog", timeouts));
@@ -1168,4 +1243,115 @@ pub fn fuzz_one(data: &[u8]) {
             panic!("documented dimensions violated: {}", d);
         }
     }
+}
+
+// ---------------------------------------------------------------- libFuzzer stage (thorough tier, S7)
+
+/// Coverage-guided campaigns on the two cargo-fuzz targets. Every artifact libFuzzer saves is
+/// re-checked by the deterministic worker oracle before anything is reported; an artifact the
+/// oracle does not confirm (e.g. libFuzzer's own malloc limit) is only counted.
+pub fn fuzz_stage(run: &mut Run, focus: Focus, pool: &Arc<Pool>) {
+    if std::env::var("VERIF_REPO").is_ok() || std::env::var("VERIF_NO_FUZZ").is_ok() {
+        run.extra.insert("libfuzzer".into(), json!("skipped (path-override or VERIF_NO_FUZZ run)"));
+        return;
+    }
+    let hdir = format!("{}/harness", verif_dir());
+    let work = format!("{}/fuzz-work-{}-{}", target_dir(), run.prop, std::process::id());
+    let _ = std::fs::remove_dir_all(&work);
+    let sh = |cmd: &str, cwd: &str| -> (i32, String) {
+        match std::process::Command::new("bash").arg("-c").arg(cmd).current_dir(cwd).env("CARGO_NET_OFFLINE", "true").output() {
+            Ok(o) => (o.status.code().unwrap_or(-1), format!("{}{}", String::from_utf8_lossy(&o.stdout), String::from_utf8_lossy(&o.stderr))),
+            Err(e) => (-1, e.to_string()),
+        }
+    };
+    let (rc, out) = sh("cargo +nightly fuzz build -s none 2>&1 | tail -5; exit ${PIPESTATUS[0]}", &hdir);
+    if rc != 0 {
+        run.extra.insert("libfuzzer".into(), json!(format!("skipped: cargo fuzz build failed: {}", out.chars().rev().take(300).collect::<String>().chars().rev().collect::<String>())));
+        return;
+    }
+    let mut summary = vec![];
+    for (ti, target) in ["bytes_load_use", "structured_load_use"].iter().enumerate() {
+        let corpus = format!("{}/{}/corpus", work, target);
+        let arts = format!("{}/{}/artifacts", work, target);
+        let logs = format!("{}/{}/logs", work, target);
+        for d in [&corpus, &arts, &logs] {
+            let _ = std::fs::create_dir_all(d);
+        }
+        // seed corpus: golden files + generated well-formed and hostile files (bytes target) or tapes (structured)
+        let mut n = 0;
+        if ti == 0 {
+            for (name, b) in golden_seeds() {
+                if b.len() <= 65536 {
+                    let _ = std::fs::write(format!("{}/golden-{}", corpus, name), b);
+                    n += 1;
+                }
+            }
+        }
+        for i in 0..200u64 {
+            let mut r = Rng(lane_seed(run.seed, "fuzz-seed", i));
+            let tape: Vec<u32> = (0..400).map(|_| r.next() as u32).collect();
+            if ti == 0 {
+                let b = build_hostile(&tape);
+                if b.bytes.len() <= 65536 {
+                    let _ = std::fs::write(format!("{}/gen-{}", corpus, i), &b.bytes);
+                    n += 1;
+                }
+            } else {
+                let bytes: Vec<u8> = tape.iter().flat_map(|w| w.to_le_bytes()).collect();
+                let _ = std::fs::write(format!("{}/tape-{}", corpus, i), bytes);
+                n += 1;
+            }
+        }
+        let runs = 400_000;
+        let cmd = format!(
+            "cd {hdir} && cargo +nightly fuzz run -s none {target} {corpus} -- -runs={runs} -seed={seed} -max_len=65536 -len_control=0 -rss_limit_mb=6000 -malloc_limit_mb=1500 -timeout=60 -max_total_time=200 -artifact_prefix={arts}/ -jobs=8 -workers=8 -print_final_stats=1 > {logs}/driver.log 2>&1; mv {hdir}/fuzz-*.log {logs}/ 2>/dev/null; true",
+            logs = logs, hdir = hdir, target = target, corpus = corpus, runs = runs, seed = (run.seed % 1_000_000) + 1 + ti as u64, arts = arts
+        );
+        let (_rc, _o) = sh(&cmd, &hdir);
+        // executed units
+        let mut execs = 0u64;
+        if let Ok(rd) = std::fs::read_dir(&logs) {
+            for e in rd.filter_map(|e| e.ok()) {
+                if let Ok(t) = std::fs::read_to_string(e.path()) {
+                    for l in t.lines() {
+                        if let Some(x) = l.strip_prefix("stat::number_of_executed_units:") {
+                            execs += x.trim().parse::<u64>().unwrap_or(0);
+                        }
+                    }
+                }
+            }
+        }
+        // artifacts -> deterministic oracle
+        let mut confirmed = 0u64;
+        let mut unconfirmed = 0u64;
+        if let Ok(rd) = std::fs::read_dir(&arts) {
+            let mut ps: Vec<_> = rd.filter_map(|e| e.ok()).map(|e| e.path()).collect();
+            ps.sort();
+            for p in ps.into_iter().take(40) {
+                let raw = match std::fs::read(&p) {
+                    Ok(b) => b,
+                    Err(_) => continue,
+                };
+                let bytes = if ti == 0 {
+                    raw
+                } else {
+                    let tape: Vec<u32> = raw.chunks(4).map(|c| { let mut w = [0u8; 4]; w[..c.len()].copy_from_slice(c); u32::from_le_bytes(w) }).collect();
+                    build_hostile(&tape).bytes
+                };
+                let v = pool.run(0, &bytes, flags_for(focus), 7);
+                let ops = vec![format!("libfuzzer:{}:{}", target, p.file_name().unwrap().to_string_lossy())];
+                let r = judge(focus, &bytes, &v, &ops, false);
+                if r.is_err() {
+                    confirmed += 1;
+                } else {
+                    unconfirmed += 1;
+                }
+                run.direct(|| json!({"hex": hex(&bytes), "ops": ops}), r);
+            }
+        }
+        summary.push(json!({"target": target, "seed_corpus": n, "executed_units": execs, "artifacts_confirmed": confirmed, "artifacts_unconfirmed": unconfirmed}));
+        run.stats.counters.entry("libfuzzer_executed_units".into()).and_modify(|x| *x += execs).or_insert(execs);
+    }
+    run.extra.insert("libfuzzer".into(), json!(summary));
+    let _ = std::fs::remove_dir_all(&work);
 }
